@@ -60,3 +60,67 @@ Definition mismatches := mismatches_with check.
 
 Example parse_full_ex : option_map project (parse_full "ESOuosSOxeR") = Some [BE; BS; BO; AO; AS; BS; BO; AE; EER].
 Proof. reflexivity. Qed.
+
+(** ** The library's own debugger object (debug.NewDebugger; model/DebugFanout.v).
+    A C19 case plus: the Attach calls made on the object, in order - two characters per call, the hook (E e S s O o C c K R
+    as above, p BeforeStackPush, P AfterStackPush, q BeforeStackPop, Q AfterStackPop) and the label of the recording
+    handler passed - and the log the handlers wrote (two characters per handler call: hook, label).
+    [check_fan]: the lifecycle part of the observed callback sequence is the model's trace and the whole is accepted by
+    the automaton of model/DebugStack.v (as [check]); the model object built by the same [attach] calls, its [dispatch]
+    run over that callback sequence (stack callbacks spelled out), writes the same log. *)
+From GoBT Require Import model.DebugFanout.
+
+Record case19f := mkCase19F { k19f_case : case19; k19f_regs : string; k19f_log : string }.
+
+Definition fevent_of_ascii (a : ascii) : option fevent :=
+  if Ascii.eqb a "E" then Some HBeforeExecute else if Ascii.eqb a "e" then Some HAfterExecute
+  else if Ascii.eqb a "S" then Some HBeforeStep else if Ascii.eqb a "s" then Some HAfterStep
+  else if Ascii.eqb a "O" then Some HBeforeExecuteOpcode else if Ascii.eqb a "o" then Some HAfterExecuteOpcode
+  else if Ascii.eqb a "C" then Some HBeforeScriptChange else if Ascii.eqb a "c" then Some HAfterScriptChange
+  else if Ascii.eqb a "K" then Some HAfterSuccess else if Ascii.eqb a "R" then Some HAfterError
+  else if Ascii.eqb a "p" then Some HBeforeStackPush else if Ascii.eqb a "P" then Some HAfterStackPush
+  else if Ascii.eqb a "q" then Some HBeforeStackPop else if Ascii.eqb a "Q" then Some HAfterStackPop
+  else None.
+
+Fixpoint parse_pairs (s : string) : option (list (fevent * ascii)) :=
+  match s with
+  | EmptyString => Some []
+  | String a (String l r) =>
+      match fevent_of_ascii a, parse_pairs r with
+      | Some e, Some es => Some ((e, l) :: es)
+      | _, _ => None
+      end
+  | _ => None
+  end.
+
+Fixpoint log_eqb (a b : list (fevent * ascii)) : bool :=
+  match a, b with
+  | [], [] => true
+  | (e, l) :: a', (e', l') :: b' => fevent_eqb e e' && Ascii.eqb l l' && log_eqb a' b'
+  | _, _ => false
+  end.
+
+Definition check_fan (k : case19f) : bool :=
+  let k19 := k19f_case k in
+  match parse_full (k19_trace k19), parse_pairs (k19f_regs k), parse_pairs (k19f_log k) with
+  | Some full, Some regs, Some log =>
+      evs_eqb (events_of (engine_execute_dbg no_sigops (input_of (k19_case k19)))) (project full) &&
+      match full with
+      | [] => true
+      | _ => full_lifecycle_ok (p2sh_run (k19_case k19)) full
+      end &&
+      log_eqb (fan_replay (recording_fanout regs) (blank_calls (expand full)) []) log
+  | _, _, _ => false
+  end.
+Definition mismatches_fan := mismatches_with check_fan.
+
+Example check_fan_ex :
+  let k := mkCase (unhex "51") (unhex "00") 0 false false 0 0 0 ObsErr 2 "" 0 in
+  (* OP_1 | OP_0: E S O u o C c s S O u o C c s e d R; handlers sb (registered first), Ea, sa, pa, qa *)
+  check_fan (mkCase19F (mkCase19 k "ESOuoCcsSOuoCcsedR") "sbEasapaqa" "Eapasbsapasbsaqa") = true /\
+  (* reverse order / a handler skipped / a handler twice / handlers of one callback not consecutive *)
+  check_fan (mkCase19F (mkCase19 k "ESOuoCcsSOuoCcsedR") "sbEasapaqa" "Eapasasbpasasbqa") = false /\
+  check_fan (mkCase19F (mkCase19 k "ESOuoCcsSOuoCcsedR") "sbEasapaqa" "Eapasbpasbsaqa") = false /\
+  check_fan (mkCase19F (mkCase19 k "ESOuoCcsSOuoCcsedR") "sbEasapaqa" "Eapasbsasapasbsaqa") = false /\
+  check_fan (mkCase19F (mkCase19 k "ESOuoCcsSOuoCcsedR") "sbEasapaqa" "Easbpasapasbsaqa") = false.
+Proof. vm_compute. repeat split; reflexivity. Qed.
